@@ -44,6 +44,24 @@ struct Backend {
         if (it == b->live.end()) { if (b->ever.count(p)) b->double_free++; else b->foreign_free++; if (b->note.empty()) b->note = fmt("backend free(%p): %s", q, b->ever.count(p) ? "already released" : "never returned by backend malloc"); return; }
         memset(p, 0xDD, it->second); b->live_bytes -= it->second; b->live.erase(it); b->frees++; raw_free(p - b->skew);
     }
+    // a backend may bring more than the two required functions (the library is free to use them or not -- the unchanged one does not);
+    // they follow the C conventions exactly and keep the same books
+    static void* b_realloc(UriMemoryManager* m, void* q, size_t n) {
+        Backend* b = self(m, "realloc"); b->extra_calls++;
+        if (!q) return b_malloc(m, n);
+        if (n == 0) { b_free(m, q); return nullptr; }
+        auto it = b->live.find((char*)q);
+        if (it == b->live.end()) { if (b->ever.count((char*)q)) b->double_free++; else b->foreign_free++; if (b->note.empty()) b->note = fmt("backend realloc(%p, %zu): %s", q, n, b->ever.count((char*)q) ? "already released" : "never returned by the backend"); return nullptr; }
+        size_t old = it->second; void* p = b_malloc(m, n); if (!p) return nullptr;
+        memcpy(p, q, old < n ? old : n); b_free(m, q); return p;
+    }
+    static void* b_calloc(UriMemoryManager* m, size_t a, size_t c) {
+        Backend* b = self(m, "calloc"); b->extra_calls++;
+        if (a && c > (size_t)-1 / a) { errno = ENOMEM; return nullptr; }
+        void* p = b_malloc(m, a * c); if (p) memset(p, 0, a * c); return p;
+    }
+    uint64_t extra_calls = 0;
+    void offer(int extras) { if (extras & 1) mm.realloc = b_realloc; if (extras & 2) mm.calloc = b_calloc; }
     Backend() { memset(&mm, 0, sizeof mm); mm.malloc = b_malloc; mm.free = b_free; mm.userData = this; backends().insert(this); }
     ~Backend() { for (auto& kv : live) raw_free(kv.first - skew); backends().erase(this); }
 };
@@ -77,6 +95,7 @@ static void run_case(Ctx& c, uint64_t idx) {
     Backend be; UriMemoryManager mm; memset(&mm, 0, sizeof mm);
     be.skew = (idx % 4 == 3) ? 8 : 0;      // backend blocks at 16n or at 16n + 8 (still aligned for the size header the wrapper keeps; less would break malloc's own contract)
     if (be.skew) c.count("backend_blocks_not_16_aligned");
+    if (idx % 8 == 5 || idx % 8 == 6) { be.offer(idx % 8 == 5 ? 1 : 3); c.count("backend_offers_more_than_malloc_and_free"); }
     int rc0 = uriCompleteMemoryManager(&mm, &be.mm);
     if (rc0 != URI_SUCCESS) { c.violation("C15", "alloc/complete-failed", fmt("rc=%d", rc0)); return; }
     if (idx % 64 == 0) {
